@@ -118,6 +118,64 @@ for _s in ("hier", "flat", "weakdist_deep"):
         outside_assignment_unit(_s)
 
 
+@unit("C02.bare_distribution_node_counts_in_log_prob", "C02", [f"{M}::GraphBuilder._add_model_log_prob_node", f"{M}::GraphBuilder._add_model_log_lik_node", f"{M}::GraphBuilder._add_model_log_prior_node",
+                                                                f"{M}::GraphBuilder.build_model", f"{N}::Dist.update"],
+      assumptions=["graph: mu ~ Pmu parameter; y ~ Lik(mu) observed; a distribution node NOT wrapped in a variable (a penalty / soft constraint) evaluated at f_c(mu)", "A-REAL", "A-NX"])
+def u_bare_dist(ip):
+    """the model log-probability is the sum over ALL distribution nodes of the model - also one that belongs to no variable (evaluation point set by hand);
+    log_lik / log_prior keep to the observed / parameter variables; after re-assignment the same at the new values."""
+    c = ip.ctx
+    install_graph_models(ip)
+    g = G(ip)
+    from contracts.graph import dist_fn
+    mu = g.var("mu", dist=g.dist("Pmu"), parameter=True)
+    y = g.var("y", dist=g.dist("Lik", mu), observed=True)
+    pen = ip.call(g.Dist, [dist_fn("Pen")], {"_name": "mu_constraint"})
+    ip.setattr(pen, "at", g.calc("f_c", mu, name="c_of_mu"))
+    model = g.build(y, pen)
+    LP = lambda fam, *a: TOTAL(ip.uf(f"logp_{fam}", *[ip.to_U(x) for x in a]))  # noqa: E731
+    for phase, vm in (("built", z3.Const("val_mu", U)), ("reassigned", z3.Const("new_mu", U))):
+        if phase == "reassigned":
+            ip.setattr(model.f["_vars"]["mu"], "value", vm)
+        prior, lik, penalty = LP("Pmu", vm), LP("Lik", vm, z3.Const("val_y", U)), LP("Pen", ip.uf("f_c", vm))
+        c.oblige(f"{phase}.log_prob_sums_every_distribution_node", to_sort(ip.getattr(model, "log_prob"), Real) == prior + lik + penalty)
+        c.oblige(f"{phase}.log_lik_and_log_prior_keep_to_flagged_variables", And(to_sort(ip.getattr(model, "log_lik"), Real) == lik, to_sort(ip.getattr(model, "log_prior"), Real) == prior))
+
+
+@unit("C02.literal_hyperparameter_reassigned", "C02", [f"{N}::Dist.__init__", f"{N}::Dist.update", f"{N}::Dist.init_dist", f"{N}::Value.value.fset", f"{M}::Model.update", f"{M}::Model.log_prob.fget",
+                                                       f"{M}::Model.log_prior.fget", f"{M}::Model.log_lik.fget"],
+      assumptions=["graph: mu ~ Pmu(loc = literal, scale = literal) parameter; y ~ Lik(mu, scale = literal) observed - every hyper-parameter a plain literal (an anonymous Value node of the model)", "A-REAL", "A-NX"])
+def u_literal_hyper(ip):
+    """'at the current input values' includes hyper-parameters that were given as plain literals: they live in Value nodes of the model, and after
+    assigning a new value to such a node (and to the variables) the totals are the joint density at the CURRENT values of all of them."""
+    c = ip.ctx
+    install_graph_models(ip)
+    g = G(ip)
+    from contracts.graph import dist_fn
+    lit = {k: z3.Const(f"lit_{k}", U) for k in ("loc", "scale", "lscale")}
+    dmu = ip.call(g.Dist, [dist_fn("Pmu")], {"loc": lit["loc"], "scale": lit["scale"]})
+    mu = g.var("mu", dist=dmu, parameter=True)
+    dy = ip.call(g.Dist, [dist_fn("Lik"), mu], {"scale": lit["lscale"]})
+    y = g.var("y", dist=dy, observed=True)
+    model = g.build(y)
+    LP = lambda fam, *a: TOTAL(ip.uf(f"logp_{fam}", *[ip.to_U(x) for x in a]))  # noqa: E731
+    vm, vy = z3.Const("val_mu", U), z3.Const("val_y", U)
+    prior, lik = LP("Pmu", lit["loc"], lit["scale"], vm), LP("Lik", vm, lit["lscale"], vy)
+    c.oblige("built.log_prior", to_sort(ip.getattr(model, "log_prior"), Real) == prior)
+    c.oblige("built.log_lik", to_sort(ip.getattr(model, "log_lik"), Real) == lik)
+    # re-assign the literal hyper-parameters through their (anonymous) Value nodes, and mu
+    new = {k: z3.Const(f"new_{k}", U) for k in ("loc", "scale", "lscale")}
+    ip.setattr(dmu.f["_kwinputs"]["loc"], "value", new["loc"])
+    ip.setattr(dmu.f["_kwinputs"]["scale"], "value", new["scale"])
+    ip.setattr(dy.f["_kwinputs"]["scale"], "value", new["lscale"])
+    nm = z3.Const("new_mu", U)
+    ip.setattr(model.f["_vars"]["mu"], "value", nm)
+    prior2, lik2 = LP("Pmu", new["loc"], new["scale"], nm), LP("Lik", nm, new["lscale"], vy)
+    c.oblige("reassigned.log_prior", to_sort(ip.getattr(model, "log_prior"), Real) == prior2)
+    c.oblige("reassigned.log_lik", to_sort(ip.getattr(model, "log_lik"), Real) == lik2)
+    c.oblige("reassigned.log_prob", to_sort(ip.getattr(model, "log_prob"), Real) == prior2 + lik2)
+
+
 @unit("C02.user_nodes", "C02", [f"{M}::GraphBuilder._add_model_log_lik_node", f"{M}::GraphBuilder._add_model_log_prior_node", f"{M}::GraphBuilder._add_model_log_prob_node",
                                 f"{M}::GraphBuilder.log_lik_node.fset", f"{N}::TransientIdentity.__init__", f"{N}::TransientCalc.value.fget"])
 def u_user_nodes(ip):
